@@ -52,6 +52,8 @@ import Reamber.Props.C06
 import Reamber.Props.C01
 import Reamber.Lemmas.PermInvSM
 import Reamber.Lemmas.PermInvBMS
+import Reamber.Model.BpmList
+import Reamber.Props.C20
 
 namespace Reamber.PermInv
 
@@ -852,5 +854,286 @@ theorem write_qua_perm (c c' : Qua.Chart) (h : QuaChartPerm c c') (hm : Qua.Meta
   exact ⟨hi, hh.map _, hl.map _, hb.map _, hs.map _⟩
 
 end QuaWriter
+
+
+/-! ## rate: the well-formedness domain is itself invariant; map sets -/
+
+section RateMore
+open Reamber.Rate
+
+theorem frame_wf_perm {f f' : Frame} (h : FramePerm f f') : f.wf = f'.wf := by
+  obtain ⟨hc, hr⟩ := h
+  simp only [Frame.wf, hc, hr.all_eq]
+
+theorem frame_col_perm {f f' : Frame} (h : FramePerm f f') (c : String) : (f.col c).Perm (f'.col c) := by
+  obtain ⟨hc, hr⟩ := h
+  simp only [Frame.col, hc]
+  exact hr.map _
+
+theorem frame_numericCols_perm {f f' : Frame} (h : FramePerm f f') : f.numericCols = f'.numericCols := by
+  simp only [Frame.numericCols]
+  congr 1
+  funext c
+  exact (frame_col_perm h c).all_eq
+
+theorem lists_all_perm {ls ls' : List (String × Frame)} (h : ListsPerm ls ls') (p : Frame → Bool)
+    (hp : ∀ f f', FramePerm f f' → p f = p f') : (ls.map (·.2)).all p = (ls'.map (·.2)).all p := by
+  unfold ListsPerm at h
+  induction h with
+  | nil => rfl
+  | cons hab _ ih => simp only [List.map_cons, List.all_cons, hp _ _ hab.2, ih]
+
+theorem lists_hasCol_perm {ls ls' : List (String × Frame)} (h : ListsPerm ls ls') (c : String) :
+    hasCol (ls.map (·.2)) c = hasCol (ls'.map (·.2)) c := by
+  unfold ListsPerm at h
+  unfold hasCol
+  induction h with
+  | nil => rfl
+  | cons hab _ ih => simp only [List.map_cons, List.any_cons, hab.2.1, ih]
+
+theorem listsOk_perm {ls ls' : List (String × Frame)} (h : ListsPerm ls ls') :
+    listsOk (ls.map (·.2)) = listsOk (ls'.map (·.2)) := by
+  simp only [listsOk, lists_all_perm h _ (fun _ _ => frame_wf_perm), lists_all_perm h _ (fun _ _ => frame_numericCols_perm),
+    lists_hasCol_perm h]
+
+theorem samplesOk_perm {f f' : Frame} (h : FramePerm f f') : samplesOk f = samplesOk f' := by
+  simp only [samplesOk, frame_wf_perm h, (frame_col_perm h "offset").all_eq, h.1]
+
+/-- C13's well-formedness domain does not depend on the row order of any list -/
+theorem chartOk_perm (g : Game) {c c' : Chart} (h : ChartPerm c c') : chartOk g c = chartOk g c' := by
+  obtain ⟨hl, hs, hp, _⟩ := h
+  simp only [chartOk, listsOk_perm hl, hp]
+  congr 1
+  split
+  · cases hcs : c.samples <;> cases hcs' : c'.samples <;> simp_all [OptFramePerm]
+    rename_i a b
+    cases c'.preview <;> simp [samplesOk_perm hs]
+  · rfl
+
+/-- **rate**, with the well-formedness of ONE of the two charts only -/
+theorem rate_perm_of_left (g : Game) (r : Rat) (c c' : Chart) (hok : chartOk g c = true) (hr : r ≠ 0)
+    (h : ChartPerm c c') :
+    ∃ o o', rateChart g r c = .ok o ∧ rateChart g r c' = .ok o' ∧ ChartPerm o o' :=
+  rate_perm g r c c' hok (chartOk_perm g h ▸ hok) hr h
+
+/-- the same map set up to the row order of every list of every chart -/
+def SetPerm (s s' : MapSet) : Prop :=
+  List.Forall₂ ChartPerm s.maps s'.maps ∧ s.offset = s'.offset ∧ s.sampleStart = s'.sampleStart ∧
+  s.sampleLength = s'.sampleLength ∧ s.extra = s'.extra
+
+theorem maps_all_chartOk_perm (g : Game) {ms ms' : List Chart} (h : List.Forall₂ ChartPerm ms ms') :
+    ms.all (chartOk g) = ms'.all (chartOk g) := by
+  induction h with
+  | nil => rfl
+  | cons hab _ ih => simp only [List.all_cons, chartOk_perm g hab, ih]
+
+theorem setOk_perm (k : SetKind) (g : Game) {s s' : MapSet} (h : SetPerm s s') : setOk k g s = setOk k g s' := by
+  obtain ⟨hm, _, hs, hl, _⟩ := h
+  simp only [setOk, maps_all_chartOk_perm g hm, hs, hl]
+
+theorem maps_scale_perm (g : Game) (r : Rat) {ms ms' : List Chart} (h : List.Forall₂ ChartPerm ms ms') :
+    List.Forall₂ ChartPerm (ms.map (scaleChart g r)) (ms'.map (scaleChart g r)) := by
+  induction h with
+  | nil => exact List.Forall₂.nil
+  | cons hab _ ih => exact List.Forall₂.cons (scaleChart_perm g r hab) ih
+
+theorem scaleSet_perm (k : SetKind) (g : Game) (r : Rat) {s s' : MapSet} (h : SetPerm s s') :
+    SetPerm (scaleSet k g r s) (scaleSet k g r s') := by
+  obtain ⟨hm, ho, hs, hl, he⟩ := h
+  refine ⟨?_, ?_, ?_, ?_, he⟩
+  · simp only [scaleSet]
+    exact maps_scale_perm g r hm
+  · simp only [scaleSet, ho]
+  · simp only [scaleSet, hs]
+  · simp only [scaleSet, hl]
+
+/-- **MapSet.rate**: the same map set in two row orders (every list of every chart) gives the same map set up to
+row order; the scalars (`offset`, `sample_start`, `sample_length`) are equal.  Well-formedness of one side only. -/
+theorem rate_set_perm (k : SetKind) (g : Game) (r : Rat) (s s' : MapSet) (hok : setOk k g s = true) (hr : r ≠ 0)
+    (h : SetPerm s s') :
+    ∃ o o', rateSet k g r s = .ok o ∧ rateSet k g r s' = .ok o' ∧ SetPerm o o' :=
+  ⟨_, _, rateSet_scales k g r s hok hr, rateSet_scales k g r s' (setOk_perm k g h ▸ hok) hr, scaleSet_perm k g r h⟩
+
+
+end RateMore
+
+/-! ## list-level queries: current_bpm, time_diff, ave_bpm, describe -/
+
+section ListOps
+open Reamber.Analysis Reamber.BpmListOps
+open Reamber.Timing (isort insertBy)
+
+theorem map_insertBy_key {α : Type} (key : α → Rat) (a : α) (s : List α) :
+    (insertBy (fun x y => decide (key x ≤ key y)) a s).map key = insertBy (fun x y => decide (x ≤ y)) (key a) (s.map key) := by
+  induction s with
+  | nil => rfl
+  | cons b t ih =>
+    simp only [insertBy, List.map_cons]
+    by_cases h : key a ≤ key b
+    · simp [h]
+    · simp [h, ih]
+
+theorem map_isort_key {α : Type} (key : α → Rat) (l : List α) :
+    (isort (fun x y => decide (key x ≤ key y)) l).map key = isort (fun x y => decide (x ≤ y)) (l.map key) := by
+  induction l with
+  | nil => rfl
+  | cons a t ih =>
+    simp only [isort, List.foldr_cons, List.map_cons] at ih ⊢
+    rw [map_insertBy_key, ih]
+
+/-- the sorted offset column is a function of the multiset of offsets — no hypothesis on ties -/
+theorem sortedTimes_perm {bpms bpms' : List Tp} (hp : bpms.Perm bpms') :
+    (sortTp bpms).map (·.time) = (sortTp bpms').map (·.time) := by
+  have h1 := map_isort_key (fun p : Tp => p.time) bpms
+  have h2 := map_isort_key (fun p : Tp => p.time) bpms'
+  simp only [sortTp]
+  rw [h1, h2]
+  exact isort_key_eq_of_perm (fun x : Rat => x) (fun a _ b _ h => h) (hp.map _)
+
+/-- **TimedList.time_diff**: any two row orders of the same list give the same gaps; tied rows need not be equal -/
+theorem time_diff_perm {bpms bpms' : List Tp} (last : Rat) (hp : bpms.Perm bpms') :
+    timeDiff bpms last = timeDiff bpms' last := by
+  simp only [timeDiff, sortedTimes_perm hp]
+
+/-- **BpmList.current_bpm** (`sort=True`, the default): the same tempo point for every row order -/
+theorem current_bpm_perm {bpms bpms' : List Tp} (t δ : Rat) (ht : TiesEqual (fun p : Tp => p.time) bpms)
+    (hp : bpms.Perm bpms') : currentBpm bpms true t δ = currentBpm bpms' true t δ := by
+  simp only [currentBpm, if_true, sortTp_eq_of_perm ht hp]
+
+/-- the tie hypothesis is necessary for `current_bpm` … -/
+theorem current_bpm_tie_counterexample :
+    ([⟨0, 100⟩, ⟨0, 200⟩] : List Tp).Perm [⟨0, 200⟩, ⟨0, 100⟩] ∧
+    currentBpm [⟨0, 100⟩, ⟨0, 200⟩] true 500 (1/10) ≠ currentBpm [⟨0, 200⟩, ⟨0, 100⟩] true 500 (1/10) := by
+  refine ⟨List.Perm.swap _ _ _, ?_⟩
+  decide +kernel
+
+/-- … and `sort=False` ("IT MUST BE SORTED!" in the docstring) takes the row order as it is -/
+theorem current_bpm_nosort_counterexample :
+    currentBpm [⟨0, 100⟩, ⟨1000, 200⟩] false 500 (1/10) = some ⟨0, 100⟩ ∧
+    currentBpm [⟨1000, 200⟩, ⟨0, 100⟩] false 500 (1/10) = some ⟨1000, 200⟩ ∧
+    currentBpm [⟨1000, 200⟩, ⟨0, 100⟩] true 500 (1/10) = some ⟨0, 100⟩ := by decide +kernel
+
+/-- **BpmList.ave_bpm depends on the row order** (observation; the routine is not named in the property's statement):
+`np.diff(self.offset, append=last)` and `self.bpm` are both taken in row order without a sort.  100 bpm for 1000 ms
+then 200 bpm for 1000 ms is 150 on average; the same two rows reversed give 0. -/
+theorem ave_bpm_order_counterexample :
+    aveBpm [⟨0, 100⟩, ⟨1000, 200⟩] 2000 = 150 ∧ aveBpm [⟨1000, 200⟩, ⟨0, 100⟩] 2000 = 0 := by decide +kernel
+
+/-- `ave_bpm` of a list that was sorted first is a function of the multiset of rows -/
+theorem ave_bpm_sorted_perm {bpms bpms' : List Tp} (last : Rat) (ht : TiesEqual (fun p : Tp => p.time) bpms)
+    (hp : bpms.Perm bpms') : aveBpm (sortTp bpms) last = aveBpm (sortTp bpms') last := by
+  rw [sortTp_eq_of_perm ht hp]
+
+
+theorem sumRat_perm {l l' : List Rat} (hp : l.Perm l') : sumRat l = sumRat l' := by
+  induction hp with
+  | nil => rfl
+  | cons a _ ih => simp only [sumRat, ih]
+  | swap a b l => simp only [sumRat]; exact Rat.add_left_comm _ _ _
+  | trans _ _ ih1 ih2 => exact ih1.trans ih2
+
+theorem reduceOpt_perm (pick : Rat → Rat → Rat) (hc : ∀ a b, pick a b = pick b a)
+    (ha : ∀ a b c, pick (pick a b) c = pick (pick a c) b) {l l' : List Rat} (hp : l.Perm l') :
+    reduceOpt pick l = reduceOpt pick l' := by
+  unfold reduceOpt
+  apply List.Perm.foldl_eq' hp
+  intro x _ y _ z
+  cases z with
+  | none => simp only [hc x y]
+  | some w => simp only [ha w x y]
+
+theorem minPick_comm (a b : Rat) : minPick a b = minPick b a := by
+  unfold minPick; split <;> split <;> grind
+
+theorem minPick_rcomm (a b c : Rat) : minPick (minPick a b) c = minPick (minPick a c) b := by
+  unfold minPick; repeat' split <;> grind
+
+theorem maxPick_comm (a b : Rat) : maxPick a b = maxPick b a := by
+  unfold maxPick; split <;> split <;> grind
+
+theorem maxPick_rcomm (a b c : Rat) : maxPick (maxPick a b) c = maxPick (maxPick a c) b := by
+  unfold maxPick; repeat' split <;> grind
+
+/-- **describe()** of a numeric column: every statistic is the same for every row order (no hypothesis) -/
+theorem describe_perm {col col' : List Rat} (hp : col.Perm col') : describeCol col = describeCol col' := by
+  have hs : sortRat col = sortRat col' := isort_key_eq_of_perm (fun x : Rat => x) (fun a _ b _ h => h) hp
+  simp only [describeCol, hp.length_eq, sumRat_perm hp, sumRat_perm (hp.map _), hs,
+    reduceOpt_perm minPick minPick_comm minPick_rcomm hp, reduceOpt_perm maxPick maxPick_comm maxPick_rcomm hp]
+
+example : describeCol [0, 1000, 500, 1500] = ⟨4, 750, 1250000 / 3, 0, 375, 750, 1125, 1500⟩ := by decide +kernel
+
+
+end ListOps
+
+/-! ## Pattern / Pattern.from_note_lists / group on permuted note lists -/
+
+section PatternPerm
+open Reamber.Pattern
+
+/-- the same note lists (same classes, in the same order) with the rows of every list permuted -/
+def NoteListsPerm (nls nls' : List NoteList) : Prop :=
+  List.Forall₂ (fun a b : NoteList => a.ty = b.ty ∧ a.items.Perm b.items) nls nls'
+
+theorem flatMap_heads_perm {nls nls' : List NoteList} (h : NoteListsPerm nls nls') :
+    (nls.flatMap (fun nl => nl.items.map (fun it => (⟨it.1, it.2.1, nl.ty⟩ : Pattern.Row)))).Perm
+      (nls'.flatMap (fun nl => nl.items.map (fun it => (⟨it.1, it.2.1, nl.ty⟩ : Pattern.Row)))) := by
+  unfold NoteListsPerm at h
+  induction h with
+  | nil => exact List.Perm.refl _
+  | cons hab _ ih =>
+    simp only [List.flatMap_cons, hab.1]
+    exact List.Perm.append (hab.2.map _) ih
+
+theorem flatMap_tails_perm {nls nls' : List NoteList} (h : NoteListsPerm nls nls') :
+    ((nls.filter (fun nl => isSub nl.ty .hold)).flatMap
+        (fun nl => nl.items.map (fun it => (⟨it.1, it.2.1 + it.2.2, .holdTail⟩ : Pattern.Row)))).Perm
+      ((nls'.filter (fun nl => isSub nl.ty .hold)).flatMap
+        (fun nl => nl.items.map (fun it => (⟨it.1, it.2.1 + it.2.2, .holdTail⟩ : Pattern.Row)))) := by
+  unfold NoteListsPerm at h
+  induction h with
+  | nil => exact List.Perm.refl _
+  | @cons a b _ _ hab _ ih =>
+    simp only [List.filter_cons, hab.1]
+    by_cases hs : isSub b.ty .hold = true
+    · simp only [hs, if_true, List.flatMap_cons]
+      exact List.Perm.append (hab.2.map _) ih
+    · simp only [hs]
+      exact ih
+
+theorem expectedRows_perm {nls nls' : List NoteList} (h : NoteListsPerm nls nls') (t : Bool) :
+    (expectedRows nls t).Perm (expectedRows nls' t) := by
+  unfold expectedRows
+  refine List.Perm.append (flatMap_heads_perm h) ?_
+  cases t
+  · exact List.Perm.refl _
+  · exact flatMap_tails_perm h
+
+/-- **Pattern(...)** on a permuted note frame: the frame built from ANY row order of the notes satisfies the
+specification stated for the original order — exactly these notes, ordered by offset.  (C20's grouping theorems
+quantify over every frame that satisfies it, so they hold for both.) -/
+theorem pattern_perm {rows rows' : List Pattern.Row} (hp : rows.Perm rows') : patternSpec rows (mkPattern rows') = true := by
+  have h := pattern_sorted_perm rows'
+  simp only [patternSpec, Bool.and_eq_true, List.isPerm_iff] at h ⊢
+  exact ⟨h.1.trans hp.symm, h.2⟩
+
+/-- **Pattern.from_note_lists** on note lists whose rows were permuted: the frame is the one specified for the
+original lists (every note, every requested hold tail, nothing else, sorted by offset) -/
+theorem from_note_lists_perm {nls nls' : List NoteList} (h : NoteListsPerm nls nls') (t : Bool) :
+    patternSpec (expectedRows nls t) (fromNoteLists nls' t) = true := by
+  have h' := from_note_lists_spec nls' t
+  simp only [patternSpec, Bool.and_eq_true, List.isPerm_iff] at h' ⊢
+  exact ⟨h'.1.trans (expectedRows_perm h t).symm, h'.2⟩
+
+/-- grouping the pattern of a permuted note frame partitions the ORIGINAL notes -/
+theorem group_partition_perm {rows rows' : List Pattern.Row} (hp : rows.Perm rows') (v : Rat) (h : Option Int) (aj : Bool)
+    (gs : List (List Pattern.Row)) (hg : group (mkPattern rows') v h aj = .ok gs) : gs.flatten.Perm rows := by
+  have h1 := group_partition (mkPattern rows') v h aj gs hg
+  simp only [partitionOk, List.isPerm_iff] at h1
+  have h2 := pattern_perm hp
+  simp only [patternSpec, Bool.and_eq_true, List.isPerm_iff] at h2
+  exact h1.trans h2.1
+
+
+end PatternPerm
 
 end Reamber.PermInv
